@@ -48,7 +48,7 @@ type Work struct {
 	Cut     int    `json:"cut,omitempty"`      // >0: the source text handed to the interpreter ends after this many bytes (a program that arrives truncated)
 }
 
-const nSites = 143
+const nSites = 147
 const nWraps = 7
 
 func siteSrc(k int, id string) string {
@@ -374,6 +374,17 @@ func siteSrc(k int, id string) string {
 	// a member of a nil value whose static type is an interface with methods
 	case 141:
 		return "yt" + id + " = make(type YT" + id + ", 1)\nym" + id + " = yt" + id + ".MethodByName(\"nosuch\")\ntry { ya" + id + " = ym" + id + "[0].Type.Name } catch { }\ntry { yb" + id + " = ym" + id + "[0].Type.String() } catch { }\nh(" + id + ")\nyc" + id + " = ym" + id + "[0].Type.Kind"
+	// type expressions reflect refuses for reasons of its own: a field name used twice, an element too large for a channel
+	case 142:
+		return "try { da" + id + " = make(struct { A int64, A string }) } catch { }\ntry { make(type DT" + id + ", make(struct { Name string, Name string })) } catch { }\ntry { db" + id + " = []struct { A int64, A int64 }{} } catch { }\ntry { dc" + id + " = make(map[string]struct { B int64, B int64 }) } catch { }\nh(" + id + ")\nmake(struct { C int64, C int64 })"
+	case 143:
+		return "make(type SA" + id + ", make(struct { A int64, B int64, C int64, D int64, E int64, F int64, G int64, H int64, I int64, J int64 }))\nmake(type SB" + id + ", make(struct { A SA" + id + ", B SA" + id + ", C SA" + id + ", D SA" + id + ", E SA" + id + ", F SA" + id + ", G SA" + id + ", H SA" + id + ", I SA" + id + ", J SA" + id + " }))\nmake(type SC" + id + ", make(struct { A SB" + id + ", B SB" + id + ", C SB" + id + ", D SB" + id + ", E SB" + id + ", F SB" + id + ", G SB" + id + ", H SB" + id + ", I SB" + id + ", J SB" + id + " }))\nmake(type SD" + id + ", make(struct { A SC" + id + ", B SC" + id + ", C SC" + id + ", D SC" + id + ", E SC" + id + ", F SC" + id + ", G SC" + id + ", H SC" + id + ", I SC" + id + ", J SC" + id + " }))\ntry { sc" + id + " = make(chan SD" + id + ") } catch { }\nh(" + id + ")\nmake(chan SD" + id + ", 1)"
+	// one list value spread over several names, the list being empty
+	case 144:
+		return "ea" + id + ", eb" + id + " = []\nvar ec" + id + ", ed" + id + " = make([]string)\nfunc ef" + id + "(xs) { return xs }\neg" + id + ", eh" + id + " = ef" + id + "([])\nh(" + id + ")\nei" + id + ", ej" + id + ", ek" + id + " = hid([])"
+	// a member assignment into a map whose key type is not string
+	case 145:
+		return "mk" + id + " = make(map[int64]string)\ntry { mk" + id + ".a = \"x\" } catch { }\nml" + id + " = make([]map[int64]string, 1)\ntry { ml" + id + "[0].k = \"v\" } catch { }\nmm" + id + " = make(map[bool]int64)\ntry { mm" + id + ".t = 1 } catch { }\nh(" + id + ")\nmk" + id + ".b = \"y\""
 	default:
 		return "x" + id + " = hid(1) & hid(\"z\")\ny" + id + " = hid(1.5) | hid(nil)\nz" + id + " = hid({}) ^ 1\nw" + id + " = hid([1, 2]) + hid({\"a\": 1})\nv" + id + " = hid(nil) < hid([1])\nu" + id + " = hid(func() { }) == hid(func() { })"
 	}
